@@ -198,6 +198,15 @@ Proof.
   apply merge_ranges_good in G. eapply Forall_impl; [|exact G]. intros t Ht. exact (proj1 Ht).
 Qed.
 
+(* the symbol that stands for cidr_merge in the SubnetSplitter unit (Model/SrcPreludeSplitter.v, check C20) is the regenerated
+   cidr_merge on IPNetwork objects *)
+From NV Require Model.Subnet Model.Splitter Model.SrcPreludeSplitter.
+Lemma splitter_cidr_merge_src l : Forall wf_net l -> SrcPreludeSplitter.py_cidr_merge l = src_cidr_merge (map MNet l).
+Proof.
+  intros H. unfold SrcPreludeSplitter.py_cidr_merge. symmetry. apply src_cidr_merge_wf.
+  induction H as [|n r Hn Hr IH]; [constructor|]. cbn [map]. constructor; [exact Hn|exact IH].
+Qed.
+
 (* everything the second C05 source tie states (Props/C05_src_merge.v) *)
 Lemma C05_merge_tie_ok :
   (forall items, Forall wf_mitem items -> src_cidr_merge items = cidr_merge items) /\
@@ -206,8 +215,9 @@ Lemma C05_merge_tie_ok :
      src_cidr_merge_loop2 fuel (Z.of_nat (length before)) (rev before ++ cur :: done) = Ok (merge_scan cur before done)) /\
   (forall xs acc, src_cidr_merge_loop1 xs acc = acc ++ map rt_of xs) /\
   (forall xs, Forall emit_ok xs -> forall merged, src_cidr_merge_loop3 xs merged = omap (fun r => merged ++ r) (emit_merged xs)) /\
-  (forall ver w s e, valid_ver ver = true -> src_IPRange_cidrs ver w s e = iprange_to_cidrs (addr_net ver s) (addr_net ver e)).
+  (forall ver w s e, valid_ver ver = true -> src_IPRange_cidrs ver w s e = iprange_to_cidrs (addr_net ver s) (addr_net ver e)) /\
+  (forall l, Forall wf_net l -> SrcPreludeSplitter.py_cidr_merge l = src_cidr_merge (map MNet l)).
 Proof.
   split; [exact src_cidr_merge_wf|]. split; [exact src_cidr_merge_ok|]. split; [exact src_merge_scan_ok|].
-  split; [exact src_merge_build_ok|]. split; [exact src_merge_emit_ok|exact src_range_cidrs_ok].
+  split; [exact src_merge_build_ok|]. split; [exact src_merge_emit_ok|]. split; [exact src_range_cidrs_ok|exact splitter_cidr_merge_src].
 Qed.
